@@ -170,6 +170,8 @@ pub struct SpanInfo {
     pub expect_lvl: Option<Option<&'static str>>,
     /// the rendered message, when the completion replaces the template (None inside: the span's own)
     pub expect_msg: Option<Option<String>>,
+    /// the `err` a normally completed span shows (its own, if it has one); an unwound one shows the panic
+    pub expect_err: Option<Option<&'static str>>,
     /// the span was actually unwound by a panic (its own or one of a nested node)
     pub unwound: bool,
 }
@@ -483,6 +485,7 @@ fn new_span_info(w: &World, st: &Strand, sid: u32, form: Form, exit: Exit, enabl
         expect_xprop: None,
         expect_lvl: None,
         expect_msg: None,
+        expect_err: None,
         unwound: false,
     };
     let mut l = lg(&w.log);
@@ -893,8 +896,24 @@ fn run_span_sync(w: &Arc<World>, st: &mut Strand, n: &S) {
                 let mut l = lg(&w.log);
                 l.trace.push(format!("{}: span {sid}: default completion, setter order {order:?}, skipped {skip}", st.name));
                 // what a normal completion must carry; the unwinding case is settled below
-                l.spans[ix].expect_lvl = Some(if skip != 2 { Some("debug") } else { None });
+                // a third of these spans carry properties of their own under the very keys the completion adds: what the
+                // completion adds comes first (and so counts), the span's own value shows where the completion adds none
+                let own = (sid / 24) % 3 == 0;
+                l.spans[ix].expect_lvl = Some(if skip != 2 {
+                    Some("debug")
+                } else if own {
+                    Some("info")
+                } else {
+                    None
+                });
+                l.spans[ix].expect_err = Some(if own { Some("the span's own err") } else { None });
                 l.spans[ix].expect_msg = Some(if skip != 1 { Some("completed through the default completion".to_string()) } else { None });
+            }
+            let own = (sid / 24) % 3 == 0;
+            let mut span_props: Vec<(&str, emit::Value)> = vec![("sid", emit::Value::from(sid))];
+            if own {
+                span_props.push(("lvl", emit::Value::from("info")));
+                span_props.push(("err", emit::Value::from("the span's own err")));
             }
             let (mut guard, frame) = SpanGuard::new(
                 w.rt.filter(),
@@ -905,7 +924,7 @@ fn run_span_sync(w: &Arc<World>, st: &mut Strand, n: &S) {
                 emit::props! { sid },
                 emit::path!("manual::default_completion"),
                 format!("span {sid}"),
-                emit::props! { sid },
+                &span_props[..],
             );
             let st_inner: &mut Strand = &mut *st;
             frame.call(move || {
@@ -1804,6 +1823,11 @@ fn posthoc(w: &World, focus: &'static str) {
             }
             if s.unwound != (rec.err.as_deref() == Some("panicked")) {
                 v.push(("C05", "panic_error", format!("span {} (exit {:?}) completed with err {:?}", s.sid, s.exit, rec.err)));
+            }
+            if let (false, Some(want)) = (s.unwound, s.expect_err) {
+                if rec.err.as_deref() != want {
+                    v.push(("C05", "completion_err", format!("span {} (exit {:?}) completed with err {:?}, expected {want:?}", s.sid, s.exit, rec.err)));
+                }
             }
         }
         if let Some(Some(lvl)) = s.expect_lvl {
